@@ -943,12 +943,19 @@ impl LightClientProtocol {
                 .start_number(real_start_number.pack())
                 .difficulty_boundary(start_total_difficulty.pack())
         } else {
-            if start_total_difficulty == last_total_difficulty {
+            // The last block is excluded from the sampled range: the difficulty boundary has to be
+            // reached by a block before it, otherwise the server can't locate the boundary block
+            // in `[start_number, last_number)` and rejects the request.
+            let sampled_total_difficulty: U256 =
+                last_header.parent_chain_root().total_difficulty().unpack();
+            if start_total_difficulty >= sampled_total_difficulty {
                 // Blocks are sampled by total difficulties, so the difficulty range between the
                 // start block and the last block should NOT be empty.
                 warn!(
                     "total difficulty ({:#x}) isn't increased from block#{} to block#{}",
-                    last_total_difficulty, start_number, last_number
+                    sampled_total_difficulty,
+                    start_number,
+                    last_number - 1
                 );
                 return None;
             }
@@ -956,7 +963,7 @@ impl LightClientProtocol {
                 start_number,
                 &start_total_difficulty,
                 last_number,
-                &last_total_difficulty,
+                &sampled_total_difficulty,
                 last_n_blocks,
             );
             builder
@@ -991,11 +998,14 @@ impl LightClientProtocol {
         let content = if last_number - start_number <= last_n_blocks {
             builder.difficulty_boundary(start_total_difficulty.pack())
         } else {
+            // (the last block is excluded from the sampled range, see above)
+            let sampled_total_difficulty: U256 =
+                last_header.parent_chain_root().total_difficulty().unpack();
             let (difficulty_boundary, difficulties) = sampling::sample_blocks(
                 start_number,
                 &start_total_difficulty,
                 last_number,
-                &last_total_difficulty,
+                &sampled_total_difficulty,
                 last_n_blocks,
             );
             builder
